@@ -192,6 +192,14 @@ impl Stitch {
                                         });
                                     }
                                 }
+                                // Finished or not, a gap in the hunk numbers means a hunk was lost.
+                                if let Some(missing) = index_hunks.missing_hunk() {
+                                    self.monitor.error(Error::InvalidMetadata {
+                                        details: format!(
+                                            "Band {band_id} is missing index hunk {missing}"
+                                        ),
+                                    });
+                                }
                                 if let Some(last) = &self.last_apath {
                                     index_hunks = index_hunks.advance_to_after(last)
                                 }
